@@ -110,3 +110,46 @@ package types
 //@     invariant order:   forall k int :: i <= k && k < ll ==> rs[prev].Low <= rs[k].Low
 //@     invariant apart:   forall k int :: 0 <= k && k < prev ==> upper(rs[k]) < rs[k+1].Low
 //@     invariant cover:   forall id int :: covered(rs, prev + 1, id) <==> old(covered(rs, i, id))
+
+// ---------------------------------------------------------------------------------------------
+// C20: identifiers and their encodings. The lemmas below call the real functions; the engine executes
+// their bodies symbolically (bit-precise model of binary.LittleEndian and of unpadded URL base64).
+// ---------------------------------------------------------------------------------------------
+
+//@ func (uid Uid) MarshalBinary() (res []byte, err error)
+//@   inline
+//@   ensures [C20] shape: err == nil && len(res) == 8
+//@   ensures [C20] bytes: forall k int :: 0 <= k && k < 8 ==> uint64(res[k]) == (uint64(uid) >> (8 * k)) & 0xFF
+//@   safe
+
+//@ func (uid *Uid) UnmarshalBinary(b []byte) (err error)
+//@   requires [C20] uid != nil
+//@   inline
+//@   modifies *uid
+//@   ensures [C20] short:   len(b) < 8 ==> err != nil && *uid == old(*uid)
+//@   ensures [C20] decoded: len(b) >= 8 ==> err == nil && forall k int :: 0 <= k && k < 8 ==> uint64(b[k]) == (uint64(*uid) >> (8 * k)) & 0xFF
+//@   safe
+
+//@ func (uid *Uid) UnmarshalText(src []byte) (err error)
+//@   requires [C20] uid != nil
+//@   inline
+//@   modifies *uid
+//@   ensures [C20] length: len(src) != 11 ==> err != nil
+//@   ensures [C20] onerr:  err != nil ==> *uid == old(*uid)
+//@   safe
+
+//@ func (uid *Uid) MarshalText() (res []byte, err error)
+//@   requires [C20] uid != nil
+//@   inline
+//@   ensures [C20] zero:   *uid == 0 ==> err == nil && len(res) == 0
+//@   ensures [C20] length: *uid != 0 ==> err == nil && len(res) == 11
+//@   safe
+
+// text <-> number round trips, for all 64-bit identifiers and all strings
+//@ lemma [C20] uid_text_roundtrip: forall u Uid :: u != 0 ==> ParseUid(u.String()) == u
+//@ lemma [C20] uid_zero_text: ZeroUid.String() == "" && ParseUid("") == ZeroUid
+//@ lemma [C20] uid_bad_length: forall s string :: len(s) != 11 ==> ParseUid(s) == ZeroUid
+//@ lemma [C20] uid_canonical: forall s string :: ParseUid(s) != ZeroUid ==>
+//@     len(ParseUid(s).String()) == len(s) && (forall i int :: 0 <= i && i < 11 ==> ParseUid(s).String()[i] == s[i])
+//@ lemma [C20] userid_roundtrip: forall u Uid :: u != 0 ==> ParseUserId(u.UserId()) == u
+//@ lemma [C20] userid_needs_prefix: forall s string :: !(len(s) >= 3 && s[0] == 'u' && s[1] == 's' && s[2] == 'r') ==> ParseUserId(s) == ZeroUid
